@@ -401,8 +401,16 @@ def check_concrete_models(chk):
     for d, t, _g in HAND + generated(chk.tier):
         progs[d] = t
     all_ok = True
+    from ..absint import RaiseSig, reify
     for desc, text in progs.items():
-        model = it.parse(func, text)
+        it.depth = 0
+        try:
+            model = reify(it.call_function(func, [text], func))
+        except RaiseSig as sig:
+            # the sample programs are well formed (the independent front-end parses them): any exception here is a deviation - a host exception all the more
+            all_ok = False
+            chk.bad('C07.S', pmod, 'parse_script', f'{desc}: raises {sig.cls}', f'parse_script raises {sig.cls}{tuple(sig.args_)[:1]!r} on the well-formed program "{desc}"', detail={'program': text})
+            continue
         probs = schema_problems(sch, model, 'BareScript')
         if probs:
             all_ok = False
@@ -431,21 +439,26 @@ def run(chk):
     chk.assumptions += ['schema_markdown validate_type implements struct/union/enum/optional/len>0 as documented',
                         'induction to all nesting depths: C01.S stack discipline + C07.N monotone counter']
     concrete_ok = chk.guard('C07.S', check_concrete_models, chk)
-    pm = ParserModel(chk.repo, 'C07.S')
     sch = schema_mod.load(chk.repo.module('model'), 'BARE_SCRIPT_TYPES', 'C07.S')
-    n = run_shapes(chk, pm, sch)
-    chk.extra['shapes'] = n
-    chk.guard('C07.S', check_other_statements, chk, pm, sch)
-    chk.readback(concrete_ok)('C07.S', check_expression_displays, chk, pm, sch)
+
+    def abstract_part():
+        # the handler templates evaluated over abstract lines (every nesting shape): a read-back of the concrete programs once those decided
+        pm = ParserModel(chk.repo, 'C07.S')
+        chk.extra['shapes'] = run_shapes(chk, pm, sch)
+        check_other_statements(chk, pm, sch)
+        check_expression_displays(chk, pm, sch)
+        # label numbering is decided on the concrete programs (no label defined twice, every jump target defined, in ~120 programs with up to 40 constructs each)
+        check_counter(chk, pm)
+        return pm
+    pm = chk.readback(concrete_ok)('C07.S', abstract_part)
     if concrete_ok:
-        # label numbering decided on the concrete programs (no label defined twice, every jump target defined, in ~120 programs with up to 40 constructs each): the read-back of
-        # the counter's spelling is advisory
-        chk.advisory('C07.N', check_counter, chk, pm)
         chk.floors.pop('C07.N', None)
-    else:
-        chk.guard('C07.N', check_counter, chk, pm)
+        chk.floors['C07.S'] = chk.floors['C07.T'] = 100
     chk.guard('C07.R', check_readers, chk, sch)
-    chk.guard('C07.F', c01.check_error_shapes, chk, pm, 'C07.F')
+    if pm is not None:
+        chk.guard('C07.F', c01.check_error_shapes, chk, pm, 'C07.F')
+    else:
+        chk.guard('C07.F', lambda: c01.check_error_shapes(chk, ParserModel(chk.repo, 'C07.F'), 'C07.F'))
     from .c10 import check_layout_sim
     chk.rule('C10.L', 'shared with C10: every respelling of a block keyword line is lowered to the same jumps and labels (parse_script evaluated on layout variants, E6p)')
     chk.guard('C10.L', check_layout_sim, chk)
